@@ -258,7 +258,8 @@ class Gen:
 
 class C09(Prop):
     ID = "C09"
-    LEVEL = "proof (module-expression, entry-point/RVA and repaired-loop kernels) + exploration (file-format modules)"
+    LEVEL = "proof"
+    LEVEL_DETAIL = "proof (module-expression, entry-point/RVA and repaired-loop kernels) + exploration (file-format modules)"
     COQ_TARGETS = ["theories/Properties/C09.vo"]
     MODEL_TARGETS = ["theories/Model/ModuleTypes.vo", "theories/Model/ModuleTrees.vo", "theories/Model/ModArgs.vo"]
     CASE_HEADER = "From Boreal Require Import Base.Prelude Base.Res Model.ModArgs."
